@@ -52,13 +52,24 @@ def run(tier, seed):
     env.setup()
     res = Result("C20", tier, seed)
     paths, outs = run_workers(seed, tier)
+    crashed = None
     for mode, (rc, out) in outs.items():
-        if rc != 0:
+        if mode == "jit" and rc < 0 and outs["nojit"][0] == 0:
+            crashed = (rc, out[-400:])          # the compiled run was killed by a signal (memory corruption) while the interpreted run finished
+        elif rc != 0:
             res.machinery(f"worker {mode} failed (rc={rc}):\n{out[-2500:]}")
     if res.machinery_errors:
         return res
-    J = [json.loads(l) for l in open(paths["jit"])]
+    J = [json.loads(l) for l in open(paths["jit"]) if l.strip().endswith("}")]
     I = [json.loads(l) for l in open(paths["nojit"])]
+    if crashed is not None and len(J) < len(I):
+        # the call in flight when the process died is judged like any other: its compiled outcome is "ProcessCrash"; later calls
+        # of the list have no compiled result and are not paired
+        k = len(J)
+        I[k] = dict(I[k], boundary=False)        # a crash is no matter of a decision boundary
+        J.append(dict(I[k], exc=f"ProcessCrash(signal {-crashed[0]})", num=[], disc=[]))
+        res.coverage["compiled_process_crash"] = {"signal": -crashed[0], "call": I[k]["fn"], "unpaired_calls": len(I) - k - 1, "stderr_tail": crashed[1]}
+        I = I[:k + 1]
     if len(J) != len(I):
         res.machinery(f"call lists differ in length: jit {len(J)} interpreted {len(I)}")
         return res
